@@ -177,5 +177,5 @@ def run(ctx):
             'the stack attribute is accessed outside _ScopeManager at %s' % raw, raw[0] if raw else cloc,
             instance='raw-access')
   from .common import explicit_scope_replaces
-  explicit_scope_replaces(ctx, 'C09.scope-entry')
+  ctx.section(explicit_scope_replaces, ctx, 'C09.scope-entry')
   ctx.borrow('C04', 'C04.scope', 'C09.scope-entry', instances={'enter'})     # a scoped reference enters exactly its own scope
